@@ -6,6 +6,8 @@ import SquidModel.Rock.Effects
 
 namespace SquidModel.Rock
 
+variable {A : Allow}
+
 /-- facts about every slot the walk marked -/
 structure WalkedSlot (cfg : Cfg) (g : Geo) (pos : Int) (f : Nat) (st : St) (x : Int) : Prop where
   ok : slotOk g pos x = true
@@ -24,12 +26,13 @@ structure WalkPost (cfg : Cfg) (g : Geo) (pos : Int) (f : Nat) (target : Nat) (s
   nodup : C.Nodup
   slots : ∀ x ∈ C, WalkedSlot cfg g pos f st x
   notV : ∀ x ∈ C, x ∉ V
+  seg : ∃ e, Seg st.next s C e
   done : ∀ e m', res.2 = some (e, m') → Seg st.next s C e ∧ m' = m + sumOn st.ssize C ∧ ¬(0 ≤ e ∧ m' < target)
 
 theorem walk_sat (cfg : Cfg) (g : Geo) (pos : Int) (f : Nat) (target : Nat) :
     ∀ (fuel : Nat) (s : Int) (m : Nat) (st : St) (V : List Int),
       (∀ x ∈ V, (st.ls x).finalized = true) → V.Nodup → InRange V g.slots → g.slots + 1 ≤ fuel + V.length →
-      Sat (walk cfg g pos f target fuel s m st) (fun res => ∃ C, WalkPost cfg g pos f target s m st V C res) := by
+      Sat A (walk cfg g pos f target fuel s m st) (fun res => ∃ C, WalkPost cfg g pos f target s m st V C res) := by
   intro fuel
   induction fuel with
   | zero =>
@@ -39,9 +42,9 @@ theorem walk_sat (cfg : Cfg) (g : Geo) (pos : Int) (f : Nat) (target : Nat) :
   | succ n ih =>
     intro s m st V hV hnd hr hf
     have base : ∀ r : Option (Int × Nat), (∀ e m', r = some (e, m') → e = s ∧ m' = m ∧ ¬(0 ≤ e ∧ m' < target)) →
-        Sat (pure (st, r) : M (St × Option (Int × Nat))) (fun res => ∃ C, WalkPost cfg g pos f target s m st V C res) := by
+        Sat A (pure (st, r) : M (St × Option (Int × Nat))) (fun res => ∃ C, WalkPost cfg g pos f target s m st V C res) := by
       intro r hr'
-      refine Sat.pure ⟨[], rfl, rfl, rfl, rfl, (markFinal_nil _).symm, List.nodup_nil, by simp, by simp, ?_⟩
+      refine Sat.pure ⟨[], rfl, rfl, rfl, rfl, (markFinal_nil _).symm, List.nodup_nil, by simp, by simp, ⟨s, rfl⟩, ?_⟩
       intro e m' h
       obtain ⟨h1, h2, h3⟩ := hr' e m' h
       subst h1; subst h2
@@ -74,7 +77,7 @@ theorem walk_sat (cfg : Cfg) (g : Geo) (pos : Int) (f : Nat) (target : Nat) :
         simp only [hsl1]
         by_cases h6 : (st.sl s).size = 0
         · rw [if_pos h6]
-          refine Sat.pure ⟨[s], rfl, rfl, rfl, rfl, ?_, by simp, ?_, ?_, by simp⟩
+          refine Sat.pure ⟨[s], rfl, rfl, rfl, rfl, ?_, by simp, ?_, ?_, ⟨st.next s, rfl, hgo.1, rfl⟩, by simp⟩
           · show (setFinalized st s).ls = _
             rw [hls1, ← markFinal_cons, markFinal_nil]
           · intro x hx; simp only [List.mem_singleton] at hx; subst hx; exact hws
@@ -99,7 +102,8 @@ theorem walk_sat (cfg : Cfg) (g : Geo) (pos : Int) (f : Nat) (target : Nat) :
           refine Sat.mono (ih (st.sl s).next (m + (st.sl s).size) (setFinalized st s) (s :: V) hV1 hnd1 hr1 hf1) ?_
           rintro res ⟨C', hp⟩
           have hsC : s ∉ C' := fun h => hp.notV s h (List.mem_cons_self ..)
-          refine ⟨s :: C', hp.le, hp.an, hp.sl, hp.free, ?_, List.nodup_cons.2 ⟨hsC, hp.nodup⟩, ?_, ?_, ?_⟩
+          refine ⟨s :: C', hp.le, hp.an, hp.sl, hp.free, ?_, List.nodup_cons.2 ⟨hsC, hp.nodup⟩, ?_, ?_,
+            (by obtain ⟨e', he'⟩ := hp.seg; exact ⟨e', rfl, hgo.1, he'⟩), ?_⟩
           · rw [hp.ls, hls1]; exact markFinal_cons _ _ _
           · intro x hx
             cases hx with
@@ -145,27 +149,29 @@ structure FinalizeOk (cfg : Cfg) (g : Geo) (pos : Int) (st : St) (f : Nat) (C : 
   le : st'.le = upd st.le f { st.le f with state := .loaded }
   an : st'.an = upd st.an f (finalAnchor (st.an f) (st.le f).size)
 
-structure FinalizeThrown (g : Geo) (pos : Int) (st : St) (C : List Int) (st' : St) : Prop where
+structure FinalizeThrown (cfg : Cfg) (g : Geo) (pos : Int) (st : St) (f : Nat) (C : List Int) (st' : St) : Prop where
   marked : ∀ x ∈ C, slotOk g pos x = true
+  slots : ∀ x ∈ C, WalkedSlot cfg g pos f st x
+  seg : ∃ e, Seg st.next (st.an f).start C e
   ls : st'.ls = markFinal st.ls C
   sl : st'.sl = st.sl
   free : st'.free = st.free
   le : st'.le = st.le
   an : st'.an = st.an
 
-theorem finalizeOrThrow_sat (cfg : Cfg) (g : Geo) (pos : Int) (st : St) (f : Nat) :
-    Sat (finalizeOrThrow cfg g pos st f)
-      (fun res => ∃ C, (res.2 = true → FinalizeOk cfg g pos st f C res.1) ∧ (res.2 = false → FinalizeThrown g pos st C res.1)) := by
+theorem finalizeOrThrow_sat (cfg : Cfg) (g : Geo) (pos : Int) (st : St) (f : Nat) (hw : (st.an f).writing = true) :
+    Sat A (finalizeOrThrow cfg g pos st f)
+      (fun res => ∃ C, (res.2 = true → FinalizeOk cfg g pos st f C res.1) ∧ (res.2 = false → FinalizeThrown cfg g pos st f C res.1)) := by
   unfold finalizeOrThrow
-  refine Sat.check (by decide) fun _ => ?_
+  refine Sat.check hw ?_
   by_cases hz : (st.le f).size = 0
   · simp only [hz, if_true]
-    exact Sat.pure ⟨[], by simp, fun _ => ⟨by simp, (markFinal_nil _).symm, rfl, rfl, rfl, rfl⟩⟩
+    exact Sat.pure ⟨[], by simp, fun _ => ⟨by simp, by simp, ⟨_, rfl⟩, (markFinal_nil _).symm, rfl, rfl, rfl, rfl⟩⟩
   · simp only [hz, if_false]
     refine Sat.bind (walk_sat cfg g pos f (st.le f).size (g.slots + 1) (st.an f).start 0 st [] (by simp) List.nodup_nil
       (by intro x hx; cases hx) (by simp)) ?_
     rintro ⟨st1, r⟩ ⟨C, hp⟩
-    have thrown : FinalizeThrown g pos st C st1 := ⟨fun x hx => (hp.slots x hx).ok, hp.ls, hp.sl, hp.free, hp.le, hp.an⟩
+    have thrown : FinalizeThrown cfg g pos st f C st1 := ⟨fun x hx => (hp.slots x hx).ok, hp.slots, hp.seg, hp.ls, hp.sl, hp.free, hp.le, hp.an⟩
     cases r with
     | none => exact Sat.pure ⟨C, by simp, fun _ => thrown⟩
     | some em =>
@@ -201,7 +207,7 @@ theorem finalizeOrThrow_sat (cfg : Cfg) (g : Geo) (pos : Int) (st : St) (f : Nat
               simp only [e1, e2, finalAnchor]
 
 /-- `finalizeOrFree`: either the entry became readable or it was freed -/
-structure FreedAfterWalk (g : Geo) (pos : Int) (st : St) (f : Nat) (C L : List Int) (st' : St) : Prop where
+structure FreedAfterWalk (cfg : Cfg) (g : Geo) (pos : Int) (st : St) (f : Nat) (C L : List Int) (st' : St) : Prop where
   le : st'.le = upd st.le f { st.le f with state := .corrupted }
   an : st'.an = upd st.an f rewound
   sl : st'.sl = st.sl
@@ -209,6 +215,8 @@ structure FreedAfterWalk (g : Geo) (pos : Int) (st : St) (f : Nat) (C L : List I
   free : ∀ x, x ∈ st'.free ↔ x ∈ L ∨ x ∈ st.free
   ok : ∀ x ∈ L, slotOk g pos x = true
   marked : ∀ x ∈ C, slotOk g pos x = true
+  slots : ∀ x ∈ C, WalkedSlot cfg g pos f st x
+  seg : ∃ e, Seg st.next (st.an f).start C e
 
 theorem more_markFinal (st : St) (C : List Int) (ls' : Int → LSlot) (h : ls' = markFinal st.ls C) :
     (fun x => (ls' x).more) = st.more := by
@@ -217,11 +225,14 @@ theorem more_markFinal (st : St) (C : List Int) (ls' : Int → LSlot) (h : ls' =
   by_cases hx : x ∈ C <;> simp [markFinal, hx, St.more]
 
 theorem finalizeOrFree_sat (cfg : Cfg) (g : Geo) (pos : Int) (st : St) (f : Nat) (L : List Int)
-    (hc : Chain st.more (st.an f).start L) (hlen : L.length ≤ g.slots) :
-    Sat (finalizeOrFree cfg g pos st f)
-      (fun st' => ∃ C, FinalizeOk cfg g pos st f C st' ∨ FreedAfterWalk g pos st f C L st') := by
+    (hc : Chain st.more (st.an f).start L) (hlen : L.length ≤ g.slots)
+    (hf : f < g.entries) (hw : (st.an f).writing = true) (hsz : (st.an f).start < 0 ∨ 0 < (st.le f).size)
+    (hnd : L.Nodup) (hall : ∀ x ∈ L, slotOk g pos x = true ∧ (st.ls x).freed = false)
+    (hp : A.pushed = true ∨ ∀ x ∈ L, x ∉ st.free) :
+    Sat A (finalizeOrFree cfg g pos st f)
+      (fun st' => ∃ C, FinalizeOk cfg g pos st f C st' ∨ FreedAfterWalk cfg g pos st f C L st') := by
   unfold finalizeOrFree
-  refine Sat.bind (finalizeOrThrow_sat cfg g pos st f) ?_
+  refine Sat.bind (finalizeOrThrow_sat cfg g pos st f hw) ?_
   rintro ⟨st1, ok⟩ ⟨C, hok, hthrown⟩
   cases ok with
   | true => exact Sat.pure ⟨C, Or.inl (hok rfl)⟩
@@ -231,9 +242,15 @@ theorem finalizeOrFree_sat (cfg : Cfg) (g : Geo) (pos : Int) (st : St) (f : Nat)
     have hc1 : Chain st1.more (st1.an f).start L := by
       have : st1.more = st.more := more_markFinal st C st1.ls ht.ls
       rw [this, ht.an]; exact hc
-    refine Sat.mono (freeBadEntry_sat g pos st1 f L hc1 hlen) ?_
+    have hall1 : ∀ x ∈ L, slotOk g pos x = true ∧ (st1.ls x).freed = false := by
+      intro x hx
+      refine ⟨(hall x hx).1, ?_⟩
+      rw [ht.ls]
+      by_cases hxC : x ∈ C <;> simp [markFinal, hxC, (hall x hx).2]
+    refine Sat.mono (freeBadEntry_sat g pos st1 f L hc1 hlen hf (by rw [ht.an]; exact hw)
+      (by rw [ht.an, ht.le]; exact hsz) hnd hall1 (by rw [ht.free]; exact hp)) ?_
     intro st' h'
-    refine ⟨C, Or.inr ⟨?_, ?_, ?_, ?_, ?_, h'.ok, ?_⟩⟩
+    refine ⟨C, Or.inr ⟨?_, ?_, ?_, ?_, ?_, h'.ok, ?_, ht.slots, ht.seg⟩⟩
     · rw [h'.le, ht.le]
     · rw [h'.an, ht.an]
     · rw [h'.sl, ht.sl]
